@@ -287,7 +287,8 @@ YParams(s, i) ==
   IF ~fl.ok \/ fl.big THEN [ok |-> FALSE, known |-> FALSE, saltstart |-> 0]
   ELSE IF fl.val > 2 + 255 THEN [ok |-> FALSE, known |-> FALSE, saltstart |-> 0]   \* flavor range
   ELSE LET nl == Dec64Var(s, fl.next, 1) IN
-  IF ~nl.ok \/ nl.big \/ nl.val > 63 THEN [ok |-> FALSE, known |-> FALSE, saltstart |-> 0]
+  \* (N_log2 up to 63 decodes, but N > UINT32_MAX is refused by yescrypt_kdf before any allocation)
+  IF ~nl.ok \/ nl.big \/ nl.val > 31 THEN [ok |-> FALSE, known |-> FALSE, saltstart |-> 0]
   ELSE LET r == Dec64Var(s, nl.next, 1) IN
   IF ~r.ok THEN [ok |-> FALSE, known |-> FALSE, saltstart |-> 0]
   ELSE IF At(s, r.next) = 36
@@ -316,6 +317,9 @@ ParseScrypt(s) ==
   IF Len(s) > 339 THEN Fail(ERANGE)
   ELSE IF Len(s) < 14 THEN Fail(EINVAL)                      \* "$7$" + N + 5 + 5
   ELSE IF \E i \in 4..14 : ~IsB64(s[i]) THEN Fail(EINVAL)
+  \* N = 2^N_log2 with N_log2 the value of the 4th character: 0 is refused by the decoder, and yescrypt_kdf
+  \* refuses N > UINT32_MAX before it allocates anything (alg-yescrypt-opt.c: out_EINVAL)
+  ELSE IF B64Val(s[4]) = 0 \/ B64Val(s[4]) >= 32 THEN Fail(EINVAL)
   ELSE LET lastd == LastIndexOf(s, 36, 15)
            saltend == IF lastd = 0 THEN Len(s) ELSE lastd - 1 IN
        \* verify_salt: characters of the salt alphabet or '$'; anything may follow a '$'
